@@ -755,6 +755,24 @@ def first_diag(text):
 # =====================================================================================================
 # reduction of a failing tree to the smallest one (for the key of a NEW disagreement)
 # =====================================================================================================
+def inline_binds(e, env):
+    """the tree with the bound locals (q0, q1, ...) replaced by literals of their values"""
+    k = e[0]
+    if k == "var" and e[1] in env:
+        v = env[e[1]]
+        return ("bool", v) if isinstance(v, bool) else ("int", v) if isinstance(v, int) else ("str", v)
+    if k == "bin":
+        return ("bin", e[1], inline_binds(e[2], env), inline_binds(e[3], env))
+    if k == "un":
+        inner = inline_binds(e[2], env)
+        if e[1] == "neg" and inner[0] == "int":
+            return ("int", -inner[1])
+        return ("un", e[1], inner)
+    if k == "call":
+        return ("call", e[1], [inline_binds(a, env) for a in e[2]])
+    return e
+
+
 def shrink(tree, fails, budget=50):
     calls = [0]
 
@@ -1068,13 +1086,11 @@ def run(ctx):
                 continue
             if o.cls == "prefix-rejected":
                 raise Inconclusive("nano_virt rejects the PREFIX spelling: %s\n%s" % (o.detail, t.prefix[:300]))
-            small = t.tree
-            if new_keys < 6 and not t.binds:
+            small = None
+            if new_keys < 6:
                 want_cls = o.cls
-                cnt = [0]
 
                 def fails(cand, _w=want_cls):
-                    cnt[0] += 1
                     try:
                         ct = Tree(cand, "let")
                     except (Undefined, ValueError, KeyError):
@@ -1083,12 +1099,19 @@ def run(ctx):
                         return False
                     return compare(plain, sc.sub("shrink"), [ct]).cls == _w
                 try:
-                    small = shrink(t.tree, fails)
+                    start = inline_binds(t.tree, dict((n, ev(l)) for n, ty, l in t.binds)) if t.binds else t.tree
+                    if not t.binds or fails(start):
+                        small = shrink(start, fails)
                 except Exception:
-                    small = t.tree
+                    small = None
             new_keys += 1
-            k = shape_key(small)
-            key = "shape|%s|%s|%s|%s" % (o.cls, " ".join(k[0]), k[1], ",".join(k[2]))
+            if small is not None:
+                k = shape_key(small)
+                key = "shape|%s|%s|%s|%s" % (o.cls, " ".join(k[0]), k[1], ",".join(k[2]))
+            else:
+                # only the first few disagreements of a run are reduced to their smallest failing tree
+                key = "shape|%s|not-reduced" % o.cls
+                small = t.tree
             st = Tree(small, "let") if small is not t.tree else t
             files = dict(o.files)
             files["smallest.txt"] = "infix:  %s\nprefix: %s\nvalue:  %s\n" % (st.infix, st.prefix, fmt(st.value))
